@@ -38,6 +38,7 @@ LP_KINDS = [  # positions created at pool price LP_PRICE: (lower tick, upper tic
     (18000, 26400, "20", "2"),   # wide: in range at every symbol
     (22020, 24000, "10", "1"),   # narrow: all WETH at symbol 2, all oSQTH at symbol 3
 ]
+LP_FEES = {1: ("0.05", "0.7")}   # uncollected fees (WETH, oSQTH) an LP kind carries from earlier bars (set on the Position object)
 LP_PRICE = "0.1"
 W0 = D(100)
 Q0 = D(0)
@@ -128,6 +129,9 @@ class World:
             lo, up, mb, mq = LP_KINDS[k - 1]
             pos, _, _, _ = self.um.add_liquidity_by_tick(lo, up, D(mb), D(mq), sqrt_price_x96=sp)
             self.pos[k] = pos
+            if k in LP_FEES:      # token0 = WETH, token1 = oSQTH
+                self.um.positions[pos].pending_amount0 = D(LP_FEES[k][0])
+                self.um.positions[pos].pending_amount1 = D(LP_FEES[k][1])
         self.broker.set_balance(self.weth, W0)
         self.broker.set_balance(self.osqth, Q0)
 
@@ -222,7 +226,8 @@ def lp_table():
         for s in range(1, len(ROWS) + 1):
             w.set_row(s)
             a0, a1 = w.um.get_position_amount(w.pos[k])
-            row.append((D(a0), D(a1)))
+            f0, f1 = LP_FEES.get(k, ("0", "0"))
+            row.append((D(a0) + D(f0), D(a1) + D(f1)))      # what the position is worth: liquidity amounts plus uncollected fees
         tab.append(row)
     return tab
 
@@ -233,7 +238,7 @@ def universe_module(tab=None) -> str:
     lp = ",\n     ".join("<< " + ",\n        ".join(f"<<{q_tla(a)}, {q_tla(b)}>>" for a, b in row) + " >>" for row in tab)
     return ("------------------------------ MODULE SqueethU ------------------------------\n"
             "(* GENERATED by harness/props/c14.py (universe_module): price symbols of the universe and, per LP kind and\n"
-            "   symbol, the (WETH, oSQTH) amounts read from UniLpMarket.get_position_amount.  Do not edit. *)\n"
+            "   symbol, the (WETH, oSQTH) amounts read from UniLpMarket.get_position_amount plus the kind's uncollected fees.  Do not edit. *)\n"
             "EXTENDS Num\n\n"
             f"RowsDef ==\n  << {rows} >>\n\n"
             f"LPTabDef ==\n  << {lp} >>\n"
